@@ -399,6 +399,8 @@ func (e *Engine) applyInsert(op Op) error {
 	}
 	e.Stat["insert:"+want]++
 	if want == "conflict" {
+		// an error is a value: printing it (what a caller usually does first) leaves what it reports as it was
+		_ = err.Error()
 		var ce *fox.RouteConflictError
 		if !errors.As(err, &ce) {
 			return fmt.Errorf("%s %s %q: conflict error is not a *RouteConflictError: %v", op.Kind, op.Method, op.Pattern, err)
